@@ -198,8 +198,16 @@ def sequential_traces(ctx: Ctx, rnd: random.Random, ntraces: int, maxlen: int) -
                         ev["iv"] = {"start": _t3i(riv._raw_start), "end": _t3i(riv._raw_end), "wall": off}
                     except Exception:  # noqa: BLE001
                         zone = DateTimeZone.for_offset(Offset.from_seconds(off))
-                zc = ZonedClock(clock, zone, CalendarSystem.for_id(cal))
-                ev.update(op="zoned", offset=off, cal=cal, zone=zone.id)
+                # three ways to the same ZonedClock: the constructor, IClock.in_zone, and (UTC + ISO only) IClock.in_utc
+                zroute = rnd.randrange(3)
+                if zroute == 2 and "iv" not in ev and rnd.random() < 0.5:
+                    off, cal, zone = 0, "ISO", DateTimeZone.utc
+                    zc = clock.in_utc()
+                elif zroute >= 1:
+                    zc = clock.in_zone(zone, CalendarSystem.for_id(cal))
+                else:
+                    zc = ZonedClock(clock, zone, CalendarSystem.for_id(cal))
+                ev.update(op="zoned", offset=off, cal=cal, zone=zone.id, zroute=zroute)
 
                 getter = rnd.choice(["get_current_zoned_date_time", "get_current_offset_date_time", "get_current_local_date_time",
                                      "get_current_date", "get_curent_time_of_day", "get_current_instant"])
